@@ -54,7 +54,9 @@ CHECKS = {
     "operations with symbolic spans and every instruction index, finish + BytecodeChunk::get_source_location returns the span current at "
     "emission (same start; line/column of the first span of its run), None only before any span. (c) BytecodeVM::build_stack_trace with up "
     "to 2 (3) trampoline frames looks up ip-1 in each frame's own chunk, innermost first, and emits exactly the frames whose lookup "
-    "succeeds with that lookup's line/column. Whether the compiler sets the right span, parser/lexer spans and function names are outside.")),
+    "succeeds with that lookup's line/column. Every Compiler method that creates a nested Compiler hands it the source file before using it "
+    "(frames name the module, not <eval>). (b) Lexer::advance keeps line/column for every 3 (4) character prefix over a 10-character "
+    "alphabet. Whether the compiler sets the right span, frames below native builtins and function names are outside.")),
  'C06': dict(design='section 3, C06', text=(
     "Kernel claim: allocation sizes derived from script numbers. String.prototype.repeat/padStart/padEnd and the Array constructor are "
     "executed symbolically (other callees abstracted) for EVERY f64 size argument and an arbitrary short receiver: on every path the bytes "
@@ -91,14 +93,23 @@ CHECKS = {
     "no active VM are executed symbolically on a lazily materialised Interpreter whose pending/cancelled order lists (any length), "
     "suspended_for_order and waiting-context map are arbitrary: Complete only when nothing is outstanding, every Suspended carries exactly "
     "the old pending/cancelled contents and empties both (handed over exactly once), Suspended only when the host can still act, Done "
-    "only when nothing waits. Who files orders, promise settlement, combinators and the resume half of step are outside the claim.")),
+    "only when nothing waits. Interpreter::fulfill_orders adds every response (0-2 symbolic ones) to the table the resume step reads and "
+    "drops nothing; __cancelOrder__(id) appends an allocated id to cancelled_orders exactly once for every number argument; "
+    "BytecodeVM::inject_exception - how an error response re-enters the program - reports 'no handler' only after the whole trampoline "
+    "stack was searched. A scripted host over the real interpreter (batch / one call per response / extra empty call / error responses) "
+    "is a replay route. Who files orders, promise settlement, combinators and most of the resume half of step are outside the claim.")),
  'C11': dict(design='section 3, C11', text=(
     "Kernel claim: terminal-step bookkeeping. Interpreter::step with an active VM (BytecodeVM::step havoc'd to any VmStepResult and any "
     "change of interpreter state except the run bookkeeping) plus finalize_active_execution/process_vm_result: after a terminal Complete "
     "or Err the environment is the one saved at prepare() and active_saved_env/active_module_env/active_module_path are cleared; a run "
     "that can continue keeps them. execute_pending_module, finalize_active_execution, abandon_active_execution and eval restore the "
-    "environment they replaced on every path to a return (a compile error after the module environment was installed is assumed away). "
-    "Abandoned runs and unwinding inside the VM are outside the claim.")),
+    "environment they replaced on every path to a return (a compile error after the module environment was installed is assumed away in "
+    "those four). prepare / setup_vm_from_program remember the environment at entry; the interpreter call_stack is popped once per VM "
+    "frame left and pushed iff a frame is pushed; and prepare / eval started from an ARBITRARY earlier interpreter state (a run that "
+    "failed, was abandoned or is suspended: ledgers of symbolic length, symbolic Options) hand the new run over with empty call_stack, "
+    "env_guards, exports, order ledgers, wait graph, suspended_for_order, main_module_path equal to the given path and the dead run's "
+    "start environment restored. Seven two-program sequences through the public API are a replay route. What happens inside the VM "
+    "between two steps is outside the claim.")),
  'C19': dict(design='section 3, C19', text=(
     "Kernel claim (relational): Interpreter::run_vm_to_completion (eval route) and Interpreter::process_vm_result (step route) executed "
     "from the same symbolic interpreter state on the same symbolic VmResult return the same Result<StepResult,_>, make the same calls with "
